@@ -719,6 +719,21 @@ def closure_q(prog, owners):
     return out
 
 
+def _can_return(f):
+    """the exit of f is reachable from its entry (blocks that end in a call that never returns have no successor)"""
+    seen, work = set(), [f.entry]
+    while work:
+        b = work.pop()
+        if b in seen or b is None or b not in f.blocks:
+            continue
+        seen.add(b)
+        if b == f.exit:
+            return True
+        if not f.blocks[b].noreturn:
+            work += list(f.blocks[b].succ)
+    return False
+
+
 def may_touch_tasks(prog):
     """qualified names of the functions from which user code (a callback) or an operation on the task lists
     is reachable through direct calls and poll-method slots: calling one of them may change which tasks are pending."""
@@ -744,9 +759,11 @@ def may_touch_tasks(prog):
             if f.q in mod:
                 continue
             for e in evs[f.q]:
+                if e.get('noreturn'):
+                    continue            # what a call that never returns does cannot change what its caller sees afterwards
                 if 'callee' in e:
                     t = callee_of(prog, f, e)
-                    hit = t is not None and t.q in mod
+                    hit = t is not None and t.q in mod and _can_return(t)
                 else:
                     slot = method_slot(e)
                     hit = slot is not None and any(t.q in mod for t in prog.slot_targets(slot))
@@ -1506,8 +1523,13 @@ def empty_test(atom):
     return None
 
 
-def _pending_test(atom, env):
-    """'E' / 'N' when the atom says that the pending-task list is empty / not empty"""
+def _pending_test(atom, env, summ=None):
+    """'E' / 'N' when the atom says that the pending-task list is empty / not empty.  summ: call expression -> polarity for
+    callees whose result is that truth value (read at their return)"""
+    if summ is not None and atom[0] in ('==', '!=') and atom[2] == '0':
+        p = summ(atom[3])
+        if p is not None:
+            return 'N' if (atom[0] == '!=') == p else 'E'
     t = empty_test(atom)
     if t is not None:
         a = t[0]
@@ -1516,11 +1538,13 @@ def _pending_test(atom, env):
     return None
 
 
-def _truth_of_pending(x, env):
+def _truth_of_pending(x, env, summ=None):
     """polarity p such that (x != 0) <=> (tasks are pending) == p, when x is such a truth value"""
+    if summ is not None and summ(x) is not None:
+        return summ(x)
     atoms = norm_cond(x, True)
     if len(atoms) == 1:
-        t = _pending_test(atoms[0], env)
+        t = _pending_test(atoms[0], env, summ)
         if t is not None:
             return t == 'N'
     return None
@@ -1534,11 +1558,12 @@ class WaitFlow:
          zeros {(L, field)}: field of local timespec L was stored 0 and not written since
          ran   tasks were run since the previous kernel wait (or entry)"""
 
-    def __init__(self, prog, g, is_taskrun, is_wait, touches):
+    def __init__(self, prog, g, is_taskrun, is_wait, touches, summaries=None, track=()):
         self.prog, self.g = prog, g
         self.is_taskrun, self.is_wait, self.touches = is_taskrun, is_wait, touches
-        # integer constants are tracked only for locals that some branch / conditional expression tests
-        self.tested = set()
+        self.summ = summaries
+        # integer constants are tracked only for locals that some branch / conditional expression tests (and those asked for)
+        self.tested = set(track)
         for blk in g.blocks.values():
             if blk.term and blk.term.get('cond') is not None:
                 self.tested |= {x['name'] for x in walk(blk.term['cond']) if x.get('k') == 'var'}
@@ -1575,7 +1600,7 @@ class WaitFlow:
         v = local_name(x)
         if v is not None:
             return _env_get(env, v)
-        p = _truth_of_pending(x, env)
+        p = _truth_of_pending(x, env, self.summ)
         if p is not None:
             if pend in ('E', 'N'):
                 return ('c', int((pend == 'N') == p))
@@ -1646,7 +1671,7 @@ class WaitFlow:
                 if lc == 'False':
                     return None
                 continue
-            t = _pending_test(atom, env)
+            t = _pending_test(atom, env, self.summ)
             if t is not None and not learn and pend == '?':
                 continue
             v = local_name(l)
@@ -1841,3 +1866,136 @@ def exit_points(g):
                 pts.append((b, i))
     pts.append((g.exit, 0))
     return pts
+
+
+# --------------------------------------------------------------------------
+# R-C06g: the slot that arms a kernel timer for the poll deadline
+# --------------------------------------------------------------------------
+
+COPY_CALLS = ('memcpy', 'memmove', '__builtin_memcpy', '__builtin_memmove')
+
+
+class ArmFlow:
+    """Path-sensitive analysis of a function that is asked to arm a kernel timer for the deadline it is handed and answers
+    whether it did.  state = (armed, res, env, taint)
+         armed  since entry the deadline was handed to the kernel: a function that is not part of the program was called with
+                an argument that is the deadline pointer or (the address of) a local into which deadline data was copied,
+                and no branch since established that this call failed
+         res    ('x', signature) just after that call / ('v', local) the local that holds its result
+         env    {(local, n)}: integer locals with a known constant value
+         taint  locals (scalars, structs) that hold data copied from the deadline"""
+
+    FAILED = {('<', '0'), ('==', '-1'), ('!=', '0'), ('<=', '-1')}
+
+    def __init__(self, prog, g, deadline):
+        self.prog, self.g, self.deadline = prog, g, deadline
+        self.at = disjunctive(g, (False, None, frozenset(), frozenset()), self.transfer, self.edge)
+
+    def derives(self, x, taint):
+        return any(y.get('k') == 'var' and (y.get('name') == self.deadline or y.get('name') in taint) for y in walk(x))
+
+    @staticmethod
+    def _sig(x):
+        return (x.get('callee'), tuple(canon(a) for a in x.get('args', [])))
+
+    def const(self, x, env):
+        """the integer the expression evaluates to in this state, None when unknown"""
+        x = strip(x)
+        if not isinstance(x, dict):
+            return None
+        n = int_value(x)
+        if n is not None:
+            return n
+        if x.get('k') == 'null':
+            return 0
+        v = local_name(x)
+        if v is not None:
+            val = _env_get(env, v)
+            return val if isinstance(val, int) else None
+        if x.get('k') == 'un' and x.get('op') == '!':
+            a = self.const(x['e'], env)
+            return None if a is None else int(not a)
+        if x.get('k') == 'bin' and x.get('op') in ('==', '!=', '<', '>', '<=', '>=', '&&', '||'):
+            a, b = self.const(x['l'], env), self.const(x['r'], env)
+            if x['op'] == '&&' and (a == 0 or b == 0):
+                return 0
+            if x['op'] == '||' and ((a is not None and a != 0) or (b is not None and b != 0)):
+                return 1
+            if a is None or b is None:
+                return None
+            return int({'==': a == b, '!=': a != b, '<': a < b, '>': a > b, '<=': a <= b, '>=': a >= b,
+                        '&&': bool(a and b), '||': bool(a or b)}[x['op']])
+        if x.get('k') == 'cond':
+            c = self.const(x['c'], env)
+            if c is not None:
+                return self.const(x['a'] if c else x['b'], env)
+            a, b = self.const(x['a'], env), self.const(x['b'], env)
+            return a if a == b else None
+        return None
+
+    def edge(self, blk, si, s):
+        armed, res, env, taint = s
+        for (op, lc, rc, l, r) in _cond_atoms(blk, si):
+            if op == 'const':
+                if lc == 'False':
+                    return None
+                continue
+            v = local_name(l)
+            if v is None or not rc.lstrip('-').isdigit():
+                continue
+            n = int(rc)
+            val = _env_get(env, v)
+            if isinstance(val, int):
+                if not eval('%d %s %d' % (val, op, n)):
+                    return None
+            elif op == '==':
+                env = _env_set(env, v, n)
+            if res == ('v', v) and (op, rc) in self.FAILED:
+                armed = False                    # the call that handed the deadline to the kernel reported failure
+        return (armed, res, env, taint)
+
+    def transfer(self, e, s):
+        armed, res, env, taint = s
+        ev = e['ev']
+        if ev == 'decl':
+            nm = e['name']
+            return (armed, None if res == ('v', nm) else res, frozenset(x for x in env if x[0] != nm), taint - {nm})
+        if ev == 'store':
+            v = local_name(e['lhs'])
+            rhs = e.get('rhs')
+            tainted = rhs is not None and self.derives(rhs, taint)
+            if v is not None:
+                r = strip(rhs) if rhs is not None else None
+                n = self.const(rhs, env) if (e.get('op') == '=' and rhs is not None) else None
+                env = _env_set(env, v, n)
+                if e.get('op') == '=':
+                    taint = (taint | {v}) if tainted else (taint - {v})
+                elif tainted:
+                    taint = taint | {v}
+                if isinstance(r, dict) and r.get('k') == 'call' and res == ('x', self._sig(r)):
+                    res = ('v', v)
+                elif res == ('v', v):
+                    res = None
+                return (armed, res, env, taint)
+            root = var_of(strip_dots(e['lhs']))
+            if root is not None and root.get('vk') in ('local', 'param') and tainted:
+                taint = taint | {root['name']}
+            return (armed, res, env, taint)
+        if ev == 'call':
+            if 'fnexpr' in e:
+                return s
+            c, args = e.get('callee'), e.get('args', [])
+            if c in COPY_CALLS and len(args) >= 2:
+                if self.derives(args[1], taint):
+                    dst = var_of(strip_dots(strip(args[0])['e'])) if isinstance(strip(args[0]), dict) and strip(args[0]).get('k') == 'addr' else var_of(args[0])
+                    if dst is not None:
+                        taint = taint | {dst['name']}
+                return (armed, res, env, taint)
+            if c in PURE_CALLS or c in LIST_PRIMS or callee_of(self.prog, self.g, e) is not None:
+                return (armed, res, env, taint)
+            if any(self.derives(a, taint) for a in args):
+                return (True, ('x', self._sig(e)), env, taint)
+            if res is not None and res[0] == 'x':
+                res = None
+            return (armed, res, env, taint)
+        return s
